@@ -268,6 +268,10 @@ fn deep_phase(thorough: bool, stats: &mut Stats, failures: &mut Vec<Failure>, pl
     let next = std::sync::atomic::AtomicUsize::new(0);
     let mut combos = vec![];
     for k in deep::KINDS {
+        // kinds written in Luau syntax are not programs for the build without that dialect
+        if !cfg!(feature = "allsyn") && matches!(*k, "type-table-nest" | "type-union-nest" | "if-expression-nest") {
+            continue;
+        }
         for c in &cfgs {
             for w in &widths {
                 combos.push((*k, *c, *w));
